@@ -83,8 +83,8 @@ def ou():
                          DLMOD + ":OU_FPENonStatioLoss2D.sigma_mat", DLMOD + ":OU_FPENonStatioLoss2D.diffusion"] + ABS)
 
 
-def glv(n_other, layout, tshape):
-    keys = [str(k) for k in range(1 + n_other)]
+def glv(n_other, layout, tshape, keys=None):
+    keys = keys or [str(k) for k in range(1 + n_other)]
     def build():
         nets = {k: Net(f"G{k}", "ODE", 1, 1, positive=True) for k in keys}
         u_dict = {k: nets[k].u for k in keys}
@@ -114,7 +114,7 @@ def glv(n_other, layout, tshape):
         return dict(fn=fn, spec=body, canary=lambda *a: body(*a, wrong=True),
                     inputs=[Inp("t", tshape, "unit"), Inp("th", (1 + n_other, 1)), Inp("growth", (1 + n_other,)),
                             Inp("inter", (1 + n_other, 1 + n_other)), Inp("cc", (1 + n_other,)), Inp("Tmax", (), "pos")])
-    return EqObligation(f"C02/GeneralizedLotkaVolterra.evaluate/ensures[others={n_other},layout={layout},t={tshape}]", build,
+    return EqObligation(f"C02/GeneralizedLotkaVolterra.evaluate/ensures[others={n_other},layout={layout},t={tshape},keys={'/'.join(keys)}]", build,
                         [DLMOD + ":GeneralizedLotkaVolterra.equation", "jinns.loss._DynamicLossAbstract:ODE.evaluate",
                          "jinns.parameters._params:ParamsDict.extract_params"])
 
@@ -183,6 +183,8 @@ def obligations(tier):
                 continue
             obs.append(glv(n_other, layout, ()))
     obs.append(glv(1, "per-network", (1,)))
+    obs.append(glv(2, "per-network", (), keys=["prey", "zebra", "ant"]))      # keys_other listed out of alphabetical order
+    obs.append(glv(2, "shared", (), keys=["m", "z", "a"]))
     for layout in ("per-network", "shared"):
         obs.append(mass(False, layout))
     obs.append(mass(True, "shared"))
